@@ -107,7 +107,7 @@ def _strip(case):
 
 
 # ---------------------------------------------------------------------------
-def _flake_pair(case):
+def _flake_pair(case, k=None):
     """Snowflake 1x1x1 (direct formulation, controlled nucleation at the end of the hold, spontaneous
     nucleation switched off by a tiny kb) and Snowing-0D with cnTemp = the Snowflake nucleation temperature"""
     import yaml
@@ -125,7 +125,12 @@ def _flake_pair(case):
             if case.get("solution"):
                 y["solution"] = {k: float(v) for k, v in case["solution"].items()}
             yaml.safe_dump(y, f)
-        S = Snowflake(k={"int": 0, "ext": 0, "s0": K, "s_sigma_rel": 0}, N_vials=(1, 1, 1), storeStates="all",
+        if k is None:
+            kf = {"int": 0, "ext": 0, "s0": K, "s_sigma_rel": 0}
+        else:
+            k["s0"] = K          # parameter sweep on ONE dict shared by all objects
+            kf = k
+        S = Snowflake(k=kf, N_vials=(1, 1, 1), storeStates="all",
                       dt=0.1, seed=1, opcond=op, configPath=path, initIce="direct")
     finally:
         os.unlink(path)
@@ -141,7 +146,7 @@ def _flake_pair(case):
               cn=Tn + 1e-9, seed=0, kinetics={"a": 80.0})
     if case.get("solution"):
         c0["solution"] = dict(case["solution"])
-    r = u.run_real_full(c0)
+    r = u.run_real_full(c0, k=k)
     if r["raise"]:
         return {"raise": r["raise"]}
     T0, w0 = r["temp"], r["ice"]
@@ -267,6 +272,19 @@ def run_impl(case):
             return _flake_pair(case)
         except Exception as e:
             return {"raise": core.exc_class(e)}
+    if kind == "flake0D_sweep":
+        # one heat-transfer dict for the whole sweep: Snowflake and Snowing built from it alternately
+        k = {"int": 0, "ext": 0, "s0": case["K_list"][0], "s_sigma_rel": 0}
+        items = []
+        try:
+            for K in case["K_list"]:
+                it = _flake_pair(dict(case, K_shelf=K), k=k)
+                it["K_shelf"] = K
+                items.append(it)
+        except Exception as e:
+            return {"raise": core.exc_class(e)}
+        bad = [it for it in items if it.get("raise")]
+        return {"raise": bad[0]["raise"] if bad else None, "items": items}
     if kind == "thin":
         return _thin(case)
     if kind == "plan":
@@ -305,6 +323,31 @@ def compare(case, impl, model):
                 dis.append(f"simpson: scipy {impl['value']!r} vs model {model['ref']!r}")
         return dis
     return u.compare_runs(impl, model)
+
+
+def _flake_preds(impl, tag=""):
+    out = []
+    tol = 1e-9 * 300
+    if impl["cool_gap"] > tol:
+        out.append(Failure(clause="flake1_eq_0D_cooling", key="flake1_eq_0D_cooling|run|" + tag,
+                           detail=f"cooling curves differ by {impl['cool_gap']:.3e} K"))
+    if impl["step_flake"] != impl["step_0D"] or abs(impl["Tnuc_flake"] - impl["Tnuc_0D"]) > tol:
+        out.append(Failure(clause="same_nucleation_instant", key="same_nucleation_instant|run|" + tag,
+                           detail=f"nucleation step {impl['step_flake']} vs {impl['step_0D']}, "
+                                  f"T_nuc {impl['Tnuc_flake']} vs {impl['Tnuc_0D']}"))
+    elif (abs(impl["T_after_flake"] - impl["T_after_0D"]) > 1e-5
+          or abs(impl["sigma_after_flake"] - impl["sigma_after_0D"]) > 1e-5):
+        out.append(Failure(clause="nuc0D_eq_direct", key="nuc0D_eq_direct|run|" + tag,
+                           detail=f"state one step after nucleation: T {impl['T_after_flake']} vs "
+                                  f"{impl['T_after_0D']}, sigma {impl['sigma_after_flake']} vs {impl['sigma_after_0D']}"))
+    if abs(impl["sigma_mid_flake"] - impl["sigma_mid_0D"]) > 5e-3:
+        out.append(Failure(clause="solid_curve_agree", key="solid_curve_agree|run|" + tag,
+                           detail=f"frozen fraction half-way through solidification: Snowflake "
+                                  f"{impl['sigma_mid_flake']:.5f} vs 0D {impl['sigma_mid_0D']:.5f}"))
+    if abs(impl["tsol_flake"] - impl["tsol_0D"]) > max(1.0, 0.01 * impl["tsol_0D"]):
+        out.append(Failure(clause="tsol_agree", key="tsol_agree|run|" + tag,
+                           detail=f"solidification time {impl['tsol_flake']} s vs {impl['tsol_0D']} s"))
+    return out
 
 
 def predicates(case, impl):
@@ -351,26 +394,10 @@ def predicates(case, impl):
             out.append(Failure(clause="tsol_2D_eq_1D", key=f"tsol_2D_eq_1D|_run_2D|{case['config']}",
                                detail=f"solidification time 2D {st2[5]:.3f} min vs 1D {st1[5]:.3f} min"))
     elif kind == "flake0D":
-        tol = 1e-9 * 300
-        if impl["cool_gap"] > tol:
-            out.append(Failure(clause="flake1_eq_0D_cooling", key="flake1_eq_0D_cooling|run|",
-                               detail=f"cooling curves differ by {impl['cool_gap']:.3e} K"))
-        if impl["step_flake"] != impl["step_0D"] or abs(impl["Tnuc_flake"] - impl["Tnuc_0D"]) > tol:
-            out.append(Failure(clause="same_nucleation_instant", key="same_nucleation_instant|run|",
-                               detail=f"nucleation step {impl['step_flake']} vs {impl['step_0D']}, "
-                                      f"T_nuc {impl['Tnuc_flake']} vs {impl['Tnuc_0D']}"))
-        elif (abs(impl["T_after_flake"] - impl["T_after_0D"]) > 1e-5
-              or abs(impl["sigma_after_flake"] - impl["sigma_after_0D"]) > 1e-5):
-            out.append(Failure(clause="nuc0D_eq_direct", key="nuc0D_eq_direct|run|",
-                               detail=f"state one step after nucleation: T {impl['T_after_flake']} vs "
-                                      f"{impl['T_after_0D']}, sigma {impl['sigma_after_flake']} vs {impl['sigma_after_0D']}"))
-        if abs(impl["sigma_mid_flake"] - impl["sigma_mid_0D"]) > 5e-3:
-            out.append(Failure(clause="solid_curve_agree", key="solid_curve_agree|run|",
-                               detail=f"frozen fraction half-way through solidification: Snowflake "
-                                      f"{impl['sigma_mid_flake']:.5f} vs 0D {impl['sigma_mid_0D']:.5f}"))
-        if abs(impl["tsol_flake"] - impl["tsol_0D"]) > max(1.0, 0.01 * impl["tsol_0D"]):
-            out.append(Failure(clause="tsol_agree", key="tsol_agree|run|",
-                               detail=f"solidification time {impl['tsol_flake']} s vs {impl['tsol_0D']} s"))
+        out += _flake_preds(impl)
+    elif kind == "flake0D_sweep":
+        for n, it in enumerate(impl["items"]):
+            out += _flake_preds(it, f"shared-k#{n}")
     elif kind == "thin":
         if impl["curve_excess"] > 0.05:
             out.append(Failure(clause="thin_limit_curve", key="thin_limit_curve|_run_1D|",
@@ -396,6 +423,8 @@ def classify(case, impl):
     if case.get("kind") == "pair2D1D" and not impl.get("raise"):
         tags.append(f"pair: gap={impl['gap_cooling']:.3g}K late={impl.get('gap_late', 0):.3g}K "
                     f"tsol {impl['stats2D'][5]:.3f}/{impl['stats1D'][5]:.3f}")
+    if case.get("kind") == "flake0D_sweep" and not impl.get("raise"):
+        tags.append("sweep: " + " ".join(f"K={it['K_shelf']}:tsol {it['tsol_flake']:.1f}/{it['tsol_0D']:.1f}" for it in impl["items"]))
     if case.get("kind") == "flake0D" and not impl.get("raise"):
         tags.append(f"flake: tsol {impl['tsol_flake']:.1f}/{impl['tsol_0D']:.1f}s")
     return tags
@@ -429,6 +458,8 @@ def cases(rng, tier):
                    dict(kind="flake0D", K_shelf=400, start=20, stop=-50, rate=0.1, hold=[-10.0, 600], t_tot=3000)]
     for c in flakes:
         yield c
+    yield dict(kind="flake0D_sweep", K_list=[200, 400] if tier == "quick" else [200, 400, 100], start=20, stop=-50,
+               rate=0.05, hold=[-8.0, 1200], t_tot=4000)
     thin = [dict(kind="thin", height=0.01, K_shelf=20, rate=0.5, t_tot=3500),
             dict(kind="thin", height=0.005, K_shelf=20, rate=0.5, t_tot=1800)]
     if tier != "quick":
